@@ -968,6 +968,12 @@ pub fn run(ctx: &mut Ctx) {
     // idle 16-core machine, 14 % measured at load average 70 with the former condvar start line):
     // the floor only guards against bursts that never overlap
     ctx.require_label("stress", "overlapping-ops-on-one-torrent", 0.05);
+    // a constant swarm under concurrent re-announces (shared with C20): a cleaning pass is one
+    // atomic step per torrent, so what it reports must be the constant state
+    let saved = ctx.threads;
+    ctx.threads = 4;
+    ctx.run_enum("constant-swarm-under-load", crate::checks::hot::cases(ctx.seed ^ 0x4, tier), false, crate::checks::hot::prop_hot);
+    ctx.threads = saved;
     ctx.run_regress::<Burst, _>("deadlock-hunt", prop_hunt);
     let hunt_threads = (ctx.threads / 4).max(1);
     ctx.run_prop_threads("deadlock-hunt", tier.pick(200, 6000), hunt_threads, burst, prop_hunt);
@@ -977,6 +983,7 @@ pub fn replay(path: &str, sub: &str, case: serde_json::Value) -> i32 {
     match sub {
         "schedules" => replay_one::<SchedCase, _>("C04", path, case, prop_sched),
         "stress" => replay_one::<Burst, _>("C04", path, case, prop_stress),
+        "constant-swarm-under-load" => replay_one::<crate::checks::hot::HotCase, _>("C04", path, case, crate::checks::hot::prop_hot),
         "deadlock-hunt" => replay_one::<Burst, _>("C04", path, case, prop_hunt),
         _ => replay_one::<ProgramCase, _>("C04", path, case, prop_program),
     }
